@@ -40,9 +40,11 @@ CHECKS = {
               "boundary inside it (plus other unlink orders inside RemoveAll) yields a level-2 image, the real recovery completes on each and "
               "TLC requires the map of the uninterrupted recovery, the recorded recovery to be enabled protocol steps, and the real result to "
               "equal the specification's RecMap on every decoded level-2 image (DiskImageTrace.tla); after every recovery the session goes on "
-              "(Put, regular flush, restart) and must keep what the recovery showed."),
+              "(Put, kill, regular flush, Put, kill, restart) and must keep what the recovery showed; sampled level-2 images (one per kind of "
+              "interrupted recovery step in turn) are recovered under strace once more: every level-3 image must still recover to the map of the "
+              "uninterrupted recovery (thorough: MaxCrash=3 exhaustively on the model, 120 level-2 images)."),
         design_ref="§5 C10",
-        note="depth two on the real code, deeper only on the model; representatives chosen per abstract disk class",
+        note="depth two at every syscall boundary of the representatives, depth three sampled; representatives chosen per abstract disk class (log files: empty / header / records / torn tail)",
         technique="TLA+ spec + TLC exhaustive nested crashes; nested strace crash-image enumeration judged by TLC",
     ),
     "C13": dict(
@@ -70,7 +72,8 @@ CHECKS = {
         text=("Merge.tla: TLC enumerates every list of 3 tables x 3 keys (19 683), 4 tables x 2 keys (6 561) and 2 x 2 with empty values, checking "
               "NewestWins / NoForeignValue / EachKeyOnceAscending / CompactIsScan; the lists are built as real tables (rank 0 = empty key in one "
               "family), the stacked reader is probed at every rank and bound, MergeCompact (both reductions) and plain Merge outputs are read "
-              "back; seeded bigger lists; all judged by TLC on MergeTrace.tla."),
+              "back; seeded bigger lists; stacks whose oldest members sit behind a nested stacked reader (NestedOldestIsFlat) and member tables in the "
+              "legacy version-0 layout; all judged by TLC on MergeTrace.tla."),
         design_ref="§5 C08",
         note="quick samples the 3x3 / 4x2 spaces, thorough replays all lists",
         technique="TLA+ spec + TLC exhaustive enumeration; replay on real tables; trace validation by TLC",
@@ -101,7 +104,8 @@ CHECKS = {
               "read+discard and SeekNext semantics are model-checked over all writer programs; every TLC-enumerated program (and simulated deeper "
               "ones) runs on the real writer under seeded compression types, buffer sizes and payload families (sizes around buffers and the "
               "4 KiB window, marker bytes, nil vs empty) and is read back sequentially, with read/skip programs, by offset and by SeekNext from "
-              "every byte offset; long files, MiB payloads, direct-I/O writer; TLC judges every reply."),
+              "every byte offset; long files, MiB payloads, direct-I/O writer; files laid out in the legacy format versions 1-3 (which the "
+              "library only reads) are read the same way; TLC judges every reply."),
         design_ref="§5 C04",
         note="payloads embedding a complete valid record are excluded (precondition of any marker-scanning SeekNext)",
         technique="TLA+ spec + TLC exhaustive check; TLC-generated writer programs replayed x concretizations; trace validation by TLC",
@@ -111,7 +115,8 @@ CHECKS = {
         text=("For files generated from TLC-enumerated writer programs: every truncation length, every record-header byte x all 255 other "
               "values (reduced set on longer files) and out-of-range file-header fields; each damaged copy is read by the sequential reader to "
               "the end and by the random-access reader at every original offset; TLC judges against RecordIO.tla's CompleteToks / header-damage "
-              "clauses (only completely contained records, in order; a damaged header never yields data)."),
+              "clauses (only completely contained records, in order; a damaged header never yields data); records above the readers' 512 KiB pool "
+              "limit and files of the legacy versions 1-3 are cut as well."),
         design_ref="§5 C12",
         note="single-byte alterations only; a damaged header of the last record running into EOF may read as EOF (indistinguishable from a cut)",
         technique="fault enumeration over spec-generated files, outcomes judged by TLC against the TLA+ spec",
@@ -144,7 +149,8 @@ CHECKS = {
         text=("SortedMapPQ.tla / PQList.tla: TLC enumerates every insertion order of every subset of 7 keys (13 700) and every list of ascending "
               "inputs over 4 keys, checking order independence, iterator consistency and MergeOk; the orders are replayed on the real skip list "
               "under int / string / bytes / magnitude-returning comparators with all probes and bounds (lower > upper rejected), seeded orders up "
-              "to 10 000 keys, and the lists are merged by the real heap; every reply judged by TLC."),
+              "to 10 000 keys, iterators that are open while further keys are inserted (LiveIterOk), and the lists are merged by the real heap; "
+              "every reply judged by TLC."),
         design_ref="§5 C16",
         note="quick replays a seeded sample of the enumerated orders/lists, thorough all of them",
         technique="TLA+ spec + TLC exhaustive enumeration; replay; trace validation by TLC",
@@ -164,7 +170,8 @@ CHECKS = {
         category="model_checking",
         text=("Resources.tla (one WAL descriptor, one mapping per live table, flush +1, compaction -k+1, background compactor with separate merge "
               "and reflect steps, Close in four steps: lock, flusher joined, compactor joined, release) is model-checked, with a negative "
-              "configuration for 'release before the compactor is joined'; real sessions with hundreds of flush / compaction / open / close "
+              "configuration for 'release before the compactor is joined', and its invariants are proved for ALL values of the constants by an "
+              "inductive invariant (Apalache: base, step, implication, non-vacuity; TLAPS: 45 obligations); real sessions with hundreds of flush / compaction / open / close "
               "cycles (GC off), including Close calls gated to overlap a compaction between merge and reflect, drive the specification's "
               "actions through their hook events (ResTrace.tla: a step that is not enabled is rejected) and are observed at quiescent points "
               "through /proc/self/fd, /proc/self/maps and the goroutine dump: table count, mappings and descriptors equal the model's (manual "
@@ -174,7 +181,7 @@ CHECKS = {
               "scanner life cycles enumerated by TLC from Scanners.tla, RecordIO readers / writers, WAL incl. torn tails."),
         design_ref="§5 C19",
         note="observations only outside a running compaction cycle (its private readers are bounded by the inputs); Linux /proc",
-        technique="TLA+ spec + TLC exhaustive check; observations of real executions trace-validated by TLC",
+        technique="TLA+ spec + TLC exhaustive check + inductive invariant (Apalache, TLAPS); observations of real executions trace-validated by TLC",
     ),
     "C20": dict(
         category="translation_validation",
